@@ -1,7 +1,7 @@
 ------------------------------ MODULE MC_Mmio ------------------------------
 (* Model checking of the C12 property layer of Mmio.tla.                      *)
 (* A state is (bid, woff, wval) = (b, A, v): base state number, written offset, written value.    *)
-(* Init enumerates b x A (v = NoVal: the read-only checks run here), one Next  *)
+(* Init enumerates b x A (v = NoVal), one Next                                 *)
 (* step picks v; every invariant is a statement about Write(BaseOf(b), A, v)   *)
 (* quantified over all other offsets B (and, for the DMA window, over all      *)
 (* ordered channel pairs).  So TLC's workers share the A x v x base product    *)
@@ -78,6 +78,8 @@ Base7 == ResetEffect(Base6)
 BaseOf(i) == CASE i = 1 -> Fresh [] i = 2 -> Base2 [] i = 3 -> Base3 [] i = 4 -> Base4 [] i = 5 -> Base5
                [] i = 6 -> Base6 [] i = 7 -> Base7
 Bases == 1..NBases
+\* read-back of every watched offset in every base, tabulated once
+BaseReads == TLCEval([i \in 1..7 |-> TLCEval([o \in Watch |-> Read(BaseOf(i), o)])])
 
 -----------------------------------------------------------------------------
 Init == bid \in Bases /\ woff \in WriteSet /\ wval = NoVal
@@ -92,14 +94,15 @@ S0 == BaseOf(bid)
 TypeOK == /\ bid \in Bases /\ woff \in WriteSet /\ wval \in Values \cup { NoVal }
           /\ Chosen => LET w == Write(S0, woff, wval) IN
                 /\ w.out \in { "ok", "assert", "oob" }
-                /\ DOMAIN w.s \subseteq DOMAIN S0 \cup { CellK(woff) } /\ DOMAIN S0 \subseteq DOMAIN w.s
                 /\ w.out = "oob" <=> (woff \in WindowOffs /\ S0[ActiveK] >= 8)
                 /\ Read(w.s, woff) \in 0..65535
 ReadBack           == Chosen => ReadBackAt(S0, woff, wval)
-NonAliasing        == Chosen => NonAliasingAt(S0, woff, wval)
+NonAliasing        == Chosen => NonAliasingTab(S0, BaseReads[bid], woff, wval)
 HiddenFrame        == Chosen => HiddenFrameAt(S0, woff, wval)
-ReadPurity         == ~ Chosen => ReadPurityAt(S0, woff)
-PathsAgree         == ~ Chosen => PathsAgreeAt(S0, woff)
+\* (statements about reads: evaluated once per (base, offset), on the successor with value 0 / FFFF, so that
+\*  TLC's workers share them; initial states are generated by one thread)
+ReadPurity         == wval = 0 => ReadPurityAt(S0, woff)
+PathsAgree         == wval = \hFFFF => PathsAgreeAt(S0, woff)
 ChannelIndependent == (Chosen /\ woff \in WindowOffs) => ChannelIndependentAt(S0, woff, wval, FALSE, ChanSet)
 \* strict forms: violated by the pinned code (MC_Mmio_pinned*.cfg), hold with the Fixed* constants
 ChannelIndependentStrict == (Chosen /\ woff \in WindowOffs) => ChannelIndependentAt(S0, woff, wval, TRUE, ChanSet)
